@@ -2,6 +2,7 @@
 import io
 import json
 import os
+import re as _re
 import shutil
 import signal
 import subprocess
@@ -15,12 +16,20 @@ OBLIGATIONS = [
     "Pkgcore.C34.output_is_window_concat",
     "Pkgcore.C34.filtered_windows_are_statements",
     "Pkgcore.C34.sentinel_never_emitted",
+    "Pkgcore.C34.statements_follow_matchers",
+    "Pkgcore.C34.patterns_select_whole_name",
+    "Pkgcore.C34.ungrouped_single_token_counterexample",
+    "Pkgcore.C34.names_run_is_scanner_run",
     "Pkgcore.C34.statements_selected_by_name",
+    "Pkgcore.C34.plain_names_selected_exactly",
     "Pkgcore.C34.space_tables_ascii",
 ]
 TRUSTED = [
-    "the name predicates: re.match of the pattern built by build_regex_string is a parameter of the model; the harness evaluates the real "
-    "compiled pattern on every name the real scanner reports and hands the model the set of selected names",
+    "Python's re on the pattern subset in use (literal characters, \\c, ., */+/? on one character, ^, $, |, (?:…), (?!…)): the model "
+    "carries its own parser and backtracking matcher for that subset; every run compares the pattern text of the real "
+    "build_regex_string with the model's and real .match() with the model's matcher on every name of every case",
+    "the specification's reading of a token text (Spec.readToken: split at unescaped |, then elements) is not proved inverse to "
+    "renderSimple; it is exercised on every token list of every run (and cross-checked against plain membership for plain names)",
     "str.isspace / str.isalnum are tables generated from CPython on every run",
     "bash (the installed 5.2) is the oracle for 'defines the same values and function bodies': the dump is produced by bash itself "
     "(${v@A}, ${v@Q}, printf %q, declare -p, declare -f) and both the unfiltered and the filtered text are sourced in a clean bash",
@@ -36,17 +45,25 @@ RULE = ("environment dumps written by bash itself: 1-8 variables with random val
         "declare -p, indexed arrays) and 0-5 functions whose bodies are random compositions of ~45 construct atoms (quoted braces, "
         "parameter expansions, here-documents incl. <<-, <<'' and quoted words, case arms, comments, arithmetic, subshells, command "
         "substitution, nested functions, [[ =~ ]], process substitution) inside if/for/while/case/brace-group wrappers, printed by "
-        "declare -f; random black/white-list patterns over the names; plus a mutated stream (single edits of a dump) for robustness; "
+        "declare -f, plus generated here-documents (<<, <<-, quoted and unquoted words, text lines that end in / contain / start with "
+        "the delimiter word — also indented or followed by ; } ) —, unbalanced quotes, braces and parentheses in the text, trailing commands, inside $( )); the names are "
+        "drawn from pools in which names share prefixes, suffixes and infixes (CFLAGS / CFLAGS_amd64 / XCFLAGS, T / TT, pkg_setup / "
+        "pkg_setup_hook); black/white-lists of 0-5 tokens (plain names as the callers pass them, prefix.*, .*suffix, optional and "
+        "wildcard characters, empty tokens, tokens that are alternations a|b — also as the only token) over dumped and not-dumped related names in random order; a selection stream (name lists "
+        "x token lists on one-line definitions, bounded-exhaustive over a small universe) and a mutated stream (single edits of a "
+        "dump) for robustness; "
         "non-trivial = the dump has at least two definitions and at least one is selected for removal and at least one is kept")
 LEVEL_TEXT = ("Kernel-checked Lean 4 theorems about a function-by-function port of the scanner (fuel-indexed mutual recursion): every walker "
               "only moves forward and the scan terminates (the fuel never runs out); the output is the concatenation of disjoint, ordered windows of the input that never contain the appended "
               "NUL; the dropped text is exactly the union of the statements (function definitions / assignments) whose name was selected — "
-              "nothing outside a filtered statement is dropped and nothing is added. The port is tied to the code by running real "
+              "nothing outside a filtered statement is dropped and nothing is added; the pattern text build_regex_string builds from the "
+              "token lists selects a name iff some token matches the whole name (whitelist: iff none does), so with plain names exactly "
+              "the named definitions are selected whatever prefixes/suffixes they share with other names. The port is tied to the code by running real "
               "filter_env.main_run and the model on dumps produced by bash; the property itself is evaluated with bash as oracle "
               "(declare -p / declare -f after sourcing the filtered text).")
 LEVEL_NOTE = ("Partial by construction: that the scanner's statement boundaries coincide with bash's for every function body is not a theorem "
-              "(the scanner is a heuristic); it is checked against bash on the sampled dumps. Open finding: a ${…} expansion containing a "
-              "quoted closing brace ends at that brace.")
+              "(the scanner is a heuristic); it is checked against bash on the sampled dumps. Open findings: a ${…} expansion containing a "
+              "quoted closing brace ends at that brace; groups/subshells with stray closers; two here-documents on one line.")
 
 FINDING = "C34-quoted-brace-in-expansion"
 FINDING_GROUP = "C34-closer-inside-group"
@@ -168,8 +185,149 @@ WRAPPERS = [
 ]
 WRAPPER_WEIGHTS = [1, 1, 2, 2, 3, 3, 6, 6, 7, 7, 4, 5]
 NOWRAP = {"semicolon_brace"}
-NAMES = ["A", "B", "FOO", "foo_bar", "_x", "PATH2", "x1", "CFLAGS", "E_DEPEND", "T", "D", "PV", "var_with_long_name", "a", "Z9", "USE_x"]
-FNAMES = ["f", "g2", "src_compile", "pkg_setup", "_helper", "econf2", "die2", "f-dash", "a.b", "x:y", "foo", "FOO"]
+NAMES = ["A", "B", "FOO", "foo_bar", "_x", "PATH2", "x1", "CFLAGS", "LDFLAGS", "E_DEPEND", "T", "D", "PV", "var_with_long_name", "a", "Z9",
+         "USE_x", "SANDBOX_ON", "PORTAGE_TMP"]
+FNAMES = ["f", "g2", "src_compile", "pkg_setup", "_helper", "econf2", "die2", "f-dash", "a.b", "x:y", "foo", "FOO", "src_test", "emake"]
+# names bash (or the probe script) treats specially: never generated
+RESERVED = {"_", "IFS", "PATH", "HOME", "PWD", "OLDPWD", "UID", "EUID", "PPID", "GROUPS", "RANDOM", "SECONDS", "LINENO", "FUNCNAME", "DIRSTACK",
+            "HISTCMD", "SHLVL", "OPTIND", "OPTARG", "OPTERR", "REPLY", "HOSTNAME", "HOSTTYPE", "OSTYPE", "MACHTYPE", "SHELL", "SHELLOPTS", "BASHOPTS",
+            "PS1", "PS2", "PS4", "TERM", "LANG", "LC_ALL", "COLUMNS", "LINES", "PIPESTATUS", "EPOCHSECONDS", "EPOCHREALTIME", "SRANDOM", "COMP_WORDBREAKS",
+            "if", "then", "else", "elif", "fi", "case", "esac", "for", "select", "while", "until", "do", "done", "in", "function", "time", "coproc",
+            "echo", "declare", "source", "printf", "test", "cd", "eval", "set", "unset", "local", "exit", "return", "read", "true", "false", "let",
+            "typeset", "export", "readonly", "exec", "trap", "shift", "wait", "kill", "type", "hash", "alias", "command", "builtin", "enable", "cat"}
+_VAR_OK = _re.compile(r"^[A-Za-z_][A-Za-z0-9_]*$")
+_FUNC_OK = _re.compile(r"^[A-Za-z_][A-Za-z0-9_.:-]*$")
+
+
+def related_names(rng, n, isfunc):
+    """names sharing a prefix, suffix or infix with n"""
+    forms = [n + "_amd64", n + "2", "X" + n, "my_" + n, n + n, n[:-1], n[1:], "x" + n + "y", n + "_hook", n + "_", "_" + n, n[: max(1, len(n) // 2)],
+             n[len(n) // 2:], n + "x", n.swapcase()]
+    ok = _FUNC_OK if isfunc else _VAR_OK
+    out = [f for f in forms if f and f != n and ok.match(f) and f not in RESERVED and not f.startswith("BASH")]
+    rng.shuffle(out)
+    return out
+
+
+def gen_names(rng, count, isfunc):
+    """(dumped names, candidate names for the patterns: the dumped ones and related names that are not dumped)"""
+    bases = rng.sample(FNAMES if isfunc else NAMES, min(count, rng.choice([1, 2, 2, 3, 4])) if count else 0)
+    pool = []
+    for b in bases:
+        pool.append(b)
+        if rng.random() < 0.7:
+            pool += related_names(rng, b, isfunc)[:rng.choice([1, 1, 2, 3])]
+    pool = list(dict.fromkeys(pool))
+    extra = [n for n in (FNAMES if isfunc else NAMES) if n not in pool]
+    rng.shuffle(extra)
+    while len(pool) < count:
+        pool.append(extra.pop())
+    rng.shuffle(pool)
+    names = pool[:count]
+    cands = list(pool)
+    for b in names[:3]:
+        cands += related_names(rng, b, isfunc)[:2]
+    return names, list(dict.fromkeys(cands))
+
+
+def esc_token(n):
+    # what __escape_regex_array of ebuild-env-utils.bash does
+    return n.replace("+", "\\+").replace(".", "\\.").replace("*", "\\*")
+
+
+def gen_tokens(rng, cands):
+    """a token list as the callers pass it: plain (escaped) names and simple patterns, in random order"""
+    if not cands or rng.random() < 0.2:
+        return []
+    k = rng.choice([1, 1, 2, 2, 2, 3, 3, 4, 5])
+    toks = []
+    for _ in range(k):
+        n = rng.choice(cands)
+        r = rng.random()
+        if r < 0.6:
+            t = esc_token(n)
+        elif r < 0.7:
+            t = esc_token(n[:rng.randint(1, len(n))]) + ".*"
+        elif r < 0.78:
+            t = ".*" + esc_token(n[-rng.randint(1, len(n)):])
+        elif r < 0.83:
+            t = esc_token(n) + ".+"
+        elif r < 0.88:
+            t = esc_token(n) + "?"
+        elif r < 0.93:
+            i = rng.randrange(len(n))
+            t = esc_token(n[:i]) + "." + esc_token(n[i + 1:])
+        elif r < 0.97:
+            i = rng.randrange(len(n))
+            t = ".*" + esc_token(n[i:i + rng.randint(1, 3)]) + ".*"
+        else:
+            t = n     # not escaped (a . stays a wildcard)
+        toks.append(t)
+    if rng.random() < 0.12:
+        toks.insert(rng.randrange(len(toks) + 1), "nomatch_x")
+    if rng.random() < 0.08:
+        toks.insert(rng.randrange(len(toks) + 1), "")
+    if len(toks) >= 3 and rng.random() < 0.08:
+        toks = ["|".join(toks[:2])] + toks[2:]          # a token that is itself an alternation (grouped: exact)
+    elif len(toks) == 2 and "" not in toks and rng.random() < 0.25:
+        toks = ["|".join(toks)]                         # a single token with a top-level | (was not grouped before the fix)
+    return toks
+
+
+# ---- here-documents
+HD_WORDS = ["EOF", "END", "E_O_F", "X1", "EOT"]
+HD_QWORDS = HD_WORDS + ["E O F", "a-b", "$X"]
+HD_PLAIN = ["plain text", "", "}", "{", "    indented }", "$x `y` $(z) ${w}", "%s x", "x%s", "%sx", '"%s"', "'%s'", "<<%s", "cat <<%s",
+            "#%s", "text %s ", "%s%s", "%s.", "; %s", "echo } )", "a=1", "f() {", "esac", "done", ";;", "#"]
+HD_EOL = ["text %s", "text\t%s", "finish it with %s", "}\t%s", "' %s"]
+HD_UNBAL = ["Don't do that", 'say "hi', "`", "$(", "${", "(", ")", "'", "\\", "it's $(", "\"'", "<<"]
+# text lines the scanner took for the terminator although bash does not (fixed)
+HD_LOOKALIKE = [" %s", "\t%s", "%s;", "%s}", "%s)", "  %s", "%s; x", "%s} y", "%s)z", " \t%s;"]
+HD_CMDS = ["cat", "cat > f", "tr a b", "while read l; do :; done", "read -r a b"]
+HD_RESTS = ["", "", "", " | tr a b", " && echo '}'", "; echo hi", " > /dev/null", " || die \"x}\"", " 2>&1 | { cat; }"]
+
+
+def gen_heredoc(rng):
+    keys = ["hd"]
+    dash = rng.random() < 0.3
+    quoted = rng.random() < 0.3
+    word = rng.choice(HD_QWORDS if quoted else HD_WORDS)
+    if dash:
+        keys.append("hd_dash")
+    if quoted:
+        keys.append("hd_quoted")
+    lines = []
+    for _ in range(rng.choice([0, 1, 2, 3, 3, 4, 5, 6])):
+        k = rng.random()
+        if k < 0.35:
+            ln, kk = rng.choice(HD_PLAIN), None
+        elif k < 0.6:
+            ln, kk = rng.choice(HD_EOL), "hd_eolword"
+        elif k < 0.93:
+            ln, kk = rng.choice(HD_UNBAL), "hd_unbalanced"
+        else:
+            ln, kk = rng.choice(HD_LOOKALIKE), "hd_lookalike"
+            if dash and ln.startswith("\t"):    # that would be the terminator of a <<- document
+                ln = " " + ln
+        ln = ln % ((word,) * ln.count("%s"))
+        if kk and kk not in keys:
+            keys.append(kk)
+        lines.append(ln)
+    qw = word
+    if quoted:
+        qw = rng.choice(["'%s'", '"%s"']) % word if (" " in word or "$" in word or rng.random() < 0.7) else "\\" + word
+    op = "<<-" if dash else "<<"
+    if rng.random() < 0.15:
+        op += " "
+    tab = "\t" if dash and rng.random() < 0.7 else ""
+    body = "".join((tab if dash and rng.random() < 0.7 else "") + ln + "\n" for ln in lines)
+    if rng.random() < 0.12:
+        keys.append("hd_cmdsub")
+        return "x=$(cat %s%s\n%s%s%s\n)" % (op, qw, body, tab, word), keys
+    rest = rng.choice(HD_RESTS)
+    if rest:
+        keys.append("hd_rest")
+    return "%s %s%s%s\n%s%s%s" % (rng.choice(HD_CMDS), op, qw, rest, body, tab, word), keys
 
 
 def gen_value(rng):
@@ -184,15 +342,19 @@ def gen_body(rng, allow_finding):
     parts = []
     keys = []
     for _ in range(rng.choice([1, 1, 2, 2, 3, 4])):
-        if allow_finding and rng.random() < 0.04:
+        r = rng.random()
+        if allow_finding and r < 0.04:
             k = rng.choice(sorted(FINDING_ATOMS))
-            atom = FINDING_ATOMS[k]
+            atom, akeys = FINDING_ATOMS[k], [k]
+        elif r < 0.3:
+            atom, akeys = gen_heredoc(rng)
+            k = "hd"
         else:
             k = rng.choice(sorted(BODY_ATOMS))
-            atom = BODY_ATOMS[k]
+            atom, akeys = BODY_ATOMS[k], [k]
         wi = rng.choice(WRAPPER_WEIGHTS) if (rng.random() < 0.4 and k not in NOWRAP) else 0
         parts.append(WRAPPERS[wi] % atom)
-        keys.append(k)
+        keys += akeys
         if wi in (4, 5):
             keys.append("wrap_group" if wi == 4 else "wrap_subshell")
     return "\n".join(parts), keys
@@ -203,8 +365,8 @@ def gen_case(rng, allow_finding=True):
     nf = rng.choice([0, 1, 1, 2, 3, 5])
     if nv + nf == 0:
         nv = 2
-    vnames = rng.sample(NAMES, nv)
-    fnames = rng.sample(FNAMES, nf)
+    vnames, vcands = gen_names(rng, nv, False)
+    fnames, fcands = gen_names(rng, nf, True)
     vars_ = []
     for n in vnames:
         style = rng.choice(["A", "Q", "q", "p", "A", "Q", "arr"])
@@ -219,26 +381,8 @@ def gen_case(rng, allow_finding=True):
         body, keys = gen_body(rng, allow_finding)
         funcs.append({"name": n, "body": body})
         atoms += keys
-    # patterns
-    allv, allf = vnames, fnames
-
-    def pats(names):
-        if not names or rng.random() < 0.25:
-            return []
-        out = []
-        for n in rng.sample(names, rng.randint(1, max(1, len(names) // 2))):
-            k = rng.random()
-            if k < 0.6:
-                out.append(n.replace(".", "\\."))
-            elif k < 0.8:
-                out.append(n[:1] + ".*")
-            else:
-                out.append(".*" + n[-1:])
-        if rng.random() < 0.15:
-            out.append("nomatch[0-9]+")
-        return out
-    return {"vars": vars_, "funcs": funcs, "vpat": pats(allv), "fpat": pats(allf), "vwl": rng.random() < 0.25, "fwl": rng.random() < 0.25,
-            "interleave": rng.random() < 0.2, "atoms": atoms}
+    return {"vars": vars_, "funcs": funcs, "vpat": gen_tokens(rng, vcands), "fpat": gen_tokens(rng, fcands),
+            "vwl": rng.random() < 0.3, "fwl": rng.random() < 0.3, "interleave": rng.random() < 0.2, "atoms": atoms}
 
 
 def hexlit(s):
@@ -270,9 +414,9 @@ def dump_script(case):
         elif st == "q":
             items.append('printf "%%s=%%q\\n" %s "${%s}"' % (n, n))
         elif st == "p":
-            items.append('__x=$(declare -p %s); printf "%%s\\n" "${__x#declare -- }"' % n)
+            items.append('declare -p %s > "$__c34tmp"; IFS= read -r -d "" __x < "$__c34tmp"; __x=${__x%%$\'\\n\'}; printf "%%s\\n" "${__x#declare -- }"' % n)
         elif st == "arr":
-            items.append('__x=$(declare -p %s); printf "%%s\\n" "${__x#declare -a }"' % n)
+            items.append('declare -p %s > "$__c34tmp"; IFS= read -r -d "" __x < "$__c34tmp"; __x=${__x%%$\'\\n\'}; printf "%%s\\n" "${__x#declare -a }"' % n)
     fitems = ["declare -f %s" % f["name"] for f in case["funcs"]]
     if case["interleave"]:
         merged = []
@@ -353,12 +497,56 @@ def real_filter(text, vpat, fpat, vwl, fwl):
     return status, out.getvalue().decode("utf-8", "surrogatepass"), vseen, fseen
 
 
-def selected(names, pats, whitelist):
+_PLAIN = _re.compile(r"^[A-Za-z0-9_:-]+$")
+
+
+def real_select(names, toks, whitelist):
+    """(pattern text, [selected? per name]) from the real build_regex_string; no matcher (`if tokens:` false): nothing selected"""
     from pkgcore.ebuild import filter_env
-    if not pats:
+    if not toks:
+        return None, [False] * len(names)
+    rx = filter_env.build_regex_string(toks, invert=whitelist)
+    if rx is None:
+        return None, None
+    return rx.pattern, [rx.match(n) is not None for n in names]
+
+
+def select_req(toks, wl, names):
+    return {"cmd": "c34.select", "toks": list(toks), "wl": bool(wl), "names": list(names)}
+
+
+def run_req(text, vpat, fpat, vwl, fwl):
+    return {"cmd": "c34.run", "data": text, "vtoks": list(vpat), "ftoks": list(fpat), "vwl": bool(vwl), "fwl": bool(fwl)}
+
+
+def check_selection(ctx, case, kind, names, toks, wl, rep):
+    """edge A for the name selection (real build_regex_string/.match vs model) and the specification's verdict.
+    Returns the set of names the specification selects for removal (None: no verdict)."""
+    pat, real = real_select(names, toks, wl)
+    if isinstance(rep, str):
+        ctx.mismatch(case, f"{kind} tokens {toks!r}: Lean model answered {rep}; real pattern {pat!r}")
         return None
-    m = filter_env.build_regex_string(pats, invert=whitelist).match
-    return sorted({n for n in names if m(n)})
+    if toks and rep["re"] != pat:
+        ctx.mismatch(case, f"{kind} tokens {toks!r} whitelist={wl}: build_regex_string built {pat!r}, the model {rep['re']!r}")
+    if real is not None and rep["model"] != real:
+        d = [(n, r, m) for n, r, m in zip(names, real, rep["model"]) if r != m]
+        ctx.mismatch(case, f"{kind} tokens {toks!r} whitelist={wl}: real pattern {pat!r} and model matcher disagree on (name, real, model) {d[:4]}")
+    spec = rep["spec"]
+    if any(x is None for x in spec):
+        ctx.mismatch(case, f"{kind} tokens {toks!r}: outside the specification's pattern language (harness generated them)")
+        return None
+    live = [t for t in toks if t]
+    if live and all(_PLAIN.match(t) for t in live):
+        want = [wl != (n in live) for n in names]
+        if want != spec:
+            ctx.mismatch(case, f"{kind} plain tokens {toks!r} whitelist={wl}: specification {spec} is not plain membership {want}")
+    if toks:
+        ctx.count("tokens_%s" % (len(live) if len(live) < 4 else "4+"))
+        if any(s != (wl != any(n == t for t in live)) for n, s in zip(names, spec)):
+            ctx.count("selection_differs_from_equality")      # wildcards at work
+        if any(s == wl and any(t != n and _PLAIN.match(t) and (t in n) for t in live) for n, s in zip(names, spec)):
+            ctx.count("kept_name_contains_a_token")           # prefix/suffix/infix sharing exercised
+    return {n for n, sel in zip(names, spec) if sel}
 
 
 def is_subsequence(small, big):
@@ -368,11 +556,16 @@ def is_subsequence(small, big):
 
 # ---------------------------------------------------------------- corpus
 
-def _c(vars_=(), funcs=(), vpat=(), fpat=(), vwl=False, fwl=False):
+def _c(vars_=(), funcs=(), vpat=(), fpat=(), vwl=False, fwl=False, atoms=("corpus",)):
     return {"vars": [{"name": n, "style": s, "value": v} for n, s, v in vars_], "funcs": [{"name": n, "body": b} for n, b in funcs],
-            "vpat": list(vpat), "fpat": list(fpat), "vwl": vwl, "fwl": fwl, "interleave": False, "atoms": ["corpus"]}
+            "vpat": list(vpat), "fpat": list(fpat), "vwl": vwl, "fwl": fwl, "interleave": False, "atoms": list(atoms)}
 
 
+_SHARED_V = [("CFLAGS", "Q", "-O2 -pipe"), ("CFLAGS_amd64", "A", "-m64"), ("LDFLAGS", "Q", "-Wl,-O1"), ("XLDFLAGS", "p", "-Wl,--as-needed"),
+             ("T", "A", "/var/tmp/t"), ("TT", "Q", "two\tt"), ("DISTDIR", "q", "/var/cache/dist files")]
+_SHARED_F = [("pkg_setup", 'echo "setup: ${CFLAGS}"'), ("pkg_setup_hook", "echo 'hook {'"), ("src_compile", 'emake "${@}" || die "make failed"'),
+             ("my_src_compile", "src_compile")]
+_USAGE = "cat <<-EOF\n\tUsage: ${PN} [file]\n\tWithout a file the text is read from stdin, finish it with EOF\n\tDon't put quotes around it.\n\tEOF\nreturn 1"
 CORPUS = [
     _c(funcs=[("pre", "echo pre"), ("mid", "cat <<''\nfoo\n\n    :"), ("post", "echo post")], fpat=["mid"]),      # used to hang
     _c(vars_=[("A", "A", "x")], funcs=[("f", "echo ${x:-a} '}'"), ("g", "echo g")], fpat=["f"]),
@@ -382,6 +575,26 @@ CORPUS = [
     _c(funcs=[("f", "echo f"), ("g2", "echo g"), ("foo", "echo foo")], fpat=["f.*"], fwl=True),
     _c(funcs=[("f", "x=${y/'}'/z}; echo $x"), ("g", "echo g")], fpat=["g"]),   # open finding
     _c(funcs=[("f", "cat <<EOF\n}\nEOF"), ("g", "case $1 in a}) : ;; esac")], fpat=["f"]),
+    # names that share prefixes / suffixes / infixes with the tokens, every position of the token list, both modes
+    _c(vars_=_SHARED_V, funcs=_SHARED_F, vpat=["CFLAGS", "LDFLAGS", "T"], fpat=["pkg_setup", "src_compile"]),
+    _c(vars_=_SHARED_V, funcs=_SHARED_F, vpat=["T", "LDFLAGS", "CFLAGS"], fpat=["src_compile", "pkg_setup"]),
+    _c(vars_=_SHARED_V, funcs=_SHARED_F, vpat=["T", "DISTDIR"], fpat=["src_compile", "pkg_setup"], vwl=True, fwl=True),
+    _c(vars_=_SHARED_V, funcs=_SHARED_F, vpat=["T"], fpat=["src_compile"], vwl=True),
+    _c(vars_=_SHARED_V, funcs=_SHARED_F, vpat=["FLAGS", "", "C.*_amd64", "TT?"], fpat=[".*_setup", "nomatch_x", "src_compil"]),
+    _c(vars_=_SHARED_V, vpat=["CFLAGS|T", "LDFLAGS"]),                                  # alternation inside a token, grouped
+    _c(vars_=_SHARED_V, vpat=["CFLAGS|T"]),                                              # single token with | (fixed b3641f3)
+    _c(vars_=_SHARED_V, funcs=_SHARED_F, vpat=["T|DISTDIR"], fpat=["src_compile|pkg_setup"], vwl=True, fwl=True),
+    # here-documents whose text mentions the delimiter word and has unbalanced quotes
+    _c(funcs=[("pkg_nofetch", "cat <<EOF\nPlease download ${PN}.tar.gz by hand.\nEOF"), ("usage", _USAGE), ("pkg_pretend", "[[ -n ${PN} ]] || die \"no PN\""),
+              ("src_test", "usage > /dev/null; emake check")], fpat=["pkg_pretend", "src_test"]),
+    _c(funcs=[("pkg_nofetch", "cat <<EOF\nPlease download ${PN}.tar.gz by hand.\nEOF"), ("usage", _USAGE), ("pkg_pretend", "[[ -n ${PN} ]] || die \"no PN\""),
+              ("src_test", "usage > /dev/null; emake check")], fpat=["usage"], fwl=True),
+    _c(funcs=[("a1", "cat <<'E O F' | tr a b\nsay \"E O F\nx E O F\nE O Fx\n`\nE O F"), ("b1", "echo b")], fpat=["b1"]),
+    _c(funcs=[("a1", "x=$(cat <<X1\ntext\tX1\n(it's\nX1\n)"), ("b1", "echo b")], fpat=["a1"]),
+    _c(funcs=[("a1", "cat <<EOF\n EOF\nDon't\nEOF"), ("b1", "echo b")], fpat=["b1"], atoms=("corpus", "hd_lookalike")),      # fixed 3403941
+    _c(funcs=[("a1", "cat <<EOF\nEOF; it's\nEOF"), ("b1", "echo b")], fpat=["a1"], atoms=("corpus", "hd_lookalike")),        # fixed 3403941
+    _c(funcs=[("a1", "cat <<-EOF\n EOF\n\tsay \"hi\n\t\tEOF"), ("b1", "x=$(cat <<EOF\nEOF} it's\n\tEOF\nEOF\n)"), ("c1", "echo c")], fpat=["c1", "a1"],
+       atoms=("corpus", "hd_lookalike")),
 ]
 # raw texts (not produced by bash): boundary cases of the scanner itself
 RAW = [
@@ -390,6 +603,7 @@ RAW = [
     ("foo() {\n    :\n}\n\nbar() {\n    :\n}\n", [], ["bar"]), ("A=${B", ["A"], []), ("A=$(", ["A"], []), ("{", [], []), ("$'", [], []),
     ("cat <<''\nfoo\n\nX=1\n", ["X"], []), ("a=1;b=2;c=3\n", ["b"], []), ("a=1 b=2\nc=3\n", ["b"], []), ("", ["a"], ["b"]),
     ("x=`echo }`\ny=2\n", ["x"], []), ("x=(1 2\n3)\ny=2\n", ["x"], []), ("  \t x=1\n", ["x"], []), ("x=1\n#x=2\nx=3", ["x"], []),
+    ("a=1\nab=2\nb=3\nxb=4\n", ["a", "b"], []), ("f() { cat <<EOF\nx EOF\nEOF\n}\ng() { :; }\n", [], ["g", "f"]),
 ]
 
 
@@ -403,12 +617,25 @@ def run(ctx):
     os.makedirs(RUN_DIR)
     try:
         cases = [dict(c) for c in CORPUS]
-        for _ in range(ctx.n(150, 5000)):
+        for _ in range(ctx.n(200, 5000)):
             cases.append(gen_case(rng))
         _run_dumps(ctx, rng, cases, scratch)
+        _run_select(ctx, rng)
         _run_raw(ctx, rng)
     finally:
         shutil.rmtree(scratch, ignore_errors=True)
+
+
+def case_finding(c):
+    """the open finding whose input class the case is in (None: the property must hold exactly)"""
+    atoms = c["atoms"]
+    if any(k in FINDING_ATOMS for k in atoms) or any("${y/'}'" in f["body"] for f in c["funcs"]):
+        return FINDING
+    if any(k in ("wrap_group", "wrap_subshell") for k in atoms):
+        return FINDING_GROUP
+    if "heredoc_two" in atoms:
+        return FINDING_TWO_HEREDOCS
+    return None
 
 
 def _run_dumps(ctx, rng, cases, scratch):
@@ -425,7 +652,7 @@ def _run_dumps(ctx, rng, cases, scratch):
                 f.write(setup_script(c))
             with open(os.path.join(d, "dump.sh"), "w") as f:
                 f.write(dump_script(c))
-            script.append("( source %s/setup.sh; source %s/dump.sh ) > %s/dump.txt 2> %s/dump.err" % (d, d, d, d))
+            script.append("( source %s/setup.sh; __c34tmp=%s/declare.tmp; source %s/dump.sh ) > %s/dump.txt 2> %s/dump.err" % (d, d, d, d, d))
         run_bash("\n".join(script))
     # ---- step 2: the real filter and the model
     reqs = []
@@ -441,16 +668,17 @@ def _run_dumps(ctx, rng, cases, scratch):
             continue
         status, out, vseen, fseen = real_filter(text, c["vpat"], c["fpat"], c["vwl"], c["fwl"])
         c["status"], c["out"], c["vseen"], c["fseen"] = status, out, vseen, fseen
-        c["vsel"] = selected(vseen, c["vpat"], c["vwl"])
-        c["fsel"] = selected([n for _, n in fseen], c["fpat"], c["fwl"])
         with open(os.path.join(d, "filtered.txt"), "w", encoding="utf-8", errors="surrogatepass") as f:
             f.write(out.replace("\0", ""))
         with open(os.path.join(d, "probe.sh"), "w") as f:
             f.write(probe_script(c))
-        reqs.append({"cmd": "c34.run", "data": text, "vars": c["vsel"], "funcs": c["fsel"]})
+        reqs.append(run_req(text, c["vpat"], c["fpat"], c["vwl"], c["fwl"]))
+        reqs.append(select_req(c["vpat"], c["vwl"], [v["name"] for v in c["vars"]]))
+        reqs.append(select_req(c["fpat"], c["fwl"], [f["name"] for f in c["funcs"]]))
     live = [c for c in cases if "skip" not in c]
-    for c, rep in zip(live, ctx.model(reqs)):
-        c["model"] = rep
+    reps = ctx.model(reqs)
+    for i, c in enumerate(live):
+        c["model"], c["vselrep"], c["fselrep"] = reps[3 * i], reps[3 * i + 1], reps[3 * i + 2]
     # ---- step 3: bash as oracle (batched): source unfiltered / filtered text in a clean shell and report the definitions
     for start in range(0, len(live), B):
         script = []
@@ -467,17 +695,14 @@ def _run_dumps(ctx, rng, cases, scratch):
             ctx.note(c["skip"])
             continue
         text, out, status = c["text"], c["out"], c["status"]
-        finding = None
-        if any(k in FINDING_ATOMS for k in c["atoms"]) or any("${y/'}'" in f["body"] for f in c["funcs"]):
-            finding = FINDING
-        elif any(k in ("wrap_group", "wrap_subshell") for k in c["atoms"]):
-            finding = FINDING_GROUP
-        elif "heredoc_two" in c["atoms"]:
-            finding = FINDING_TWO_HEREDOCS
+        finding = case_finding(c)
+        # which names must go: the specification's whole-name selection on the token lists (not the code's own pattern)
+        vsel = check_selection(ctx, case, "variable", [v["name"] for v in c["vars"]], c["vpat"], c["vwl"], c["vselrep"])
+        fsel = check_selection(ctx, case, "function", [f["name"] for f in c["funcs"]], c["fpat"], c["fwl"], c["fselrep"])
+        if vsel is None or fsel is None:
+            continue
         ndefs = len(c["vars"]) + len(c["funcs"])
-        vsel = set(c["vsel"] or [])
-        fsel = set(c["fsel"] or [])
-        nsel = len([v for v in c["vars"] if v["name"] in vsel]) + len([f for f in c["funcs"] if f["name"] in fsel])
+        nsel = len(vsel) + len(fsel)
         ctx.case(case, ndefs >= 2 and 0 < nsel < ndefs, key=text + json.dumps([c["vpat"], c["fpat"], c["vwl"], c["fwl"]]))
         ctx.count("nvars_%d" % len(c["vars"]))
         ctx.count("nfuncs_%d" % len(c["funcs"]))
@@ -486,6 +711,8 @@ def _run_dumps(ctx, rng, cases, scratch):
             ctx.count("style_" + v["style"])
         for k in c["atoms"]:
             ctx.count("atom_" + k)
+        if "hd_eolword" in c["atoms"] and "hd_unbalanced" in c["atoms"]:
+            ctx.count("heredoc_text_with_delimiter_word_and_unbalanced_quote")
         if c["vwl"] or c["fwl"]:
             ctx.count("whitelist_mode")
         # the real code must terminate normally
@@ -506,6 +733,8 @@ def _run_dumps(ctx, rng, cases, scratch):
                 ctx.mismatch(case, "filtered text differs from the Lean model's: " + first_diff(out, m["out"]))
             if m["out"] != m["spec"]:
                 ctx.mismatch(case, "Lean model output is not 'input minus the filtered statements': " + first_diff(m["out"], m["spec"]))
+            if m["out"] != m["specsel_out"]:
+                ctx.mismatch(case, "Lean model filters other statements than the specification selects: " + first_diff(m["out"], m["specsel_out"]))
             mv = [s[3] for s in m["stmts"] if not s[0]]
             mf = [s[3] for s in m["stmts"] if s[0]]
             if mv != c["vseen"] or mf != [n for lvl, n in c["fseen"] if lvl == 0]:
@@ -521,7 +750,8 @@ def _run_dumps(ctx, rng, cases, scratch):
             if orig.get(key) in (None, "@@UNSET@@"):
                 continue   # bash itself could not re-read its own dump of this value
             if got.get(key) != want:
-                problems.append(f"variable {v['name']}: expected {want!r}, after sourcing the filtered text {got.get(key)!r}")
+                problems.append(f"variable {v['name']}: expected {'removed' if want == '@@UNSET@@' else want!r}, after sourcing the filtered text "
+                                f"{got.get(key)!r} (tokens {c['vpat']!r} whitelist={c['vwl']})")
         for f in c["funcs"]:
             key = "F " + f["name"]
             want = "@@UNSET@@" if f["name"] in fsel else orig.get(key)
@@ -529,7 +759,7 @@ def _run_dumps(ctx, rng, cases, scratch):
                 continue
             if got.get(key) != want:
                 problems.append(f"function {f['name']}: expected {'removed' if want == '@@UNSET@@' else 'unchanged'}, "
-                                f"got {(got.get(key) or '')[:80]!r}")
+                                f"got {(got.get(key) or '')[:80]!r} (tokens {c['fpat']!r} whitelist={c['fwl']})")
         if problems:
             ctx.violation(case, "; ".join(problems[:3]), finding=finding)
         ctx.traces += 1
@@ -540,6 +770,76 @@ def first_diff(a, b):
     while i < min(len(a), len(b)) and a[i] == b[i]:
         i += 1
     return f"at offset {i}: real …{a[max(0, i - 20):i + 30]!r} model …{b[max(0, i - 20):i + 30]!r} (lengths {len(a)}/{len(b)})"
+
+
+# ---- the name selection on its own: one-line definitions (their boundaries are not in question), many names x token lists
+
+def _sel_text(vnames, fnames):
+    return "".join("%s=1\n" % n for n in vnames) + "".join("%s () \n{ \n    :\n}\n" % n for n in fnames)
+
+
+SMALL_NAMES = ["A", "B", "AA", "AB", "BA", "BB", "AAB", "ABA", "ABB", "BAB", "A_B", "AB_"]
+SMALL_TOKENS = ["A", "B", "AB", "BA", "A.*", ".*B", "A.", "AB?", "A_B", "A|BA"]
+
+
+def _run_select(ctx, rng):
+    items = []
+    # bounded-exhaustive: every ordered token list up to a length over a small universe, both modes, as variables and as functions
+    import itertools
+    for k in range(1, ctx.n(2, 3) + 1):
+        for toks in itertools.product(SMALL_TOKENS, repeat=k):
+            for wl in (False, True):
+                if (len(items) + k) % 2:
+                    items.append((SMALL_NAMES, [], list(toks), [], wl, False))
+                else:
+                    items.append(([], SMALL_NAMES, [], list(toks), False, wl))
+    for _ in range(ctx.n(250, 8000)):
+        vnames, vc = gen_names(rng, rng.choice([0, 2, 3, 5, 8]), False)
+        fnames, fc = gen_names(rng, rng.choice([0, 2, 3, 5]), True)
+        if not vnames and not fnames:
+            continue
+        # put related names in the text as well: they are the ones a sloppy pattern catches
+        vnames = list(dict.fromkeys(vnames + [n for n in vc if rng.random() < 0.5]))
+        fnames = list(dict.fromkeys(fnames + [n for n in fc if rng.random() < 0.5]))
+        items.append((vnames, fnames, gen_tokens(rng, vc), gen_tokens(rng, fc), rng.random() < 0.35, rng.random() < 0.35))
+    reqs = []
+    reals = []
+    for vnames, fnames, vpat, fpat, vwl, fwl in items:
+        text = _sel_text(vnames, fnames)
+        status, out, vseen, fseen = real_filter(text, vpat, fpat, vwl, fwl)
+        reals.append((text, status, out))
+        reqs += [run_req(text, vpat, fpat, vwl, fwl), select_req(vpat, vwl, vnames), select_req(fpat, fwl, fnames)]
+    reps = ctx.model(reqs)
+    for i, ((vnames, fnames, vpat, fpat, vwl, fwl), (text, status, out)) in enumerate(zip(items, reals)):
+        m, vrep, frep = reps[3 * i], reps[3 * i + 1], reps[3 * i + 2]
+        case = {"select": True, "vnames": vnames, "fnames": fnames, "vpat": vpat, "fpat": fpat, "vwl": vwl, "fwl": fwl}
+        vsel = check_selection(ctx, case, "variable", vnames, vpat, vwl, vrep)
+        fsel = check_selection(ctx, case, "function", fnames, fpat, fwl, frep)
+        if vsel is None or fsel is None:
+            continue
+        n = len(vnames) + len(fnames)
+        ctx.case(case, n >= 2 and 0 < len(vsel) + len(fsel) < n, key="sel|" + json.dumps(case, sort_keys=True))
+        ctx.count("select_stream")
+        if status != "ok":
+            ctx.violation(case, f"filter_env.main_run did not finish normally: {status}")
+            continue
+        if isinstance(m, str):
+            ctx.mismatch(case, f"Lean model answered {m}, real code finished normally")
+        elif m["out"] != out:
+            ctx.mismatch(case, "filtered text differs from the Lean model's: " + first_diff(out, m["out"]))
+        elif m["out"] != m["specsel_out"]:
+            ctx.mismatch(case, "Lean model filters other statements than the specification selects: " + first_diff(m["out"], m["specsel_out"]))
+        # the property: exactly the selected definitions are gone, the others are there byte for byte
+        want = ["%s=1" % n for n in vnames if n not in vsel]
+        for n in fnames:
+            if n not in fsel:
+                want += ["%s () " % n, "{ ", "    :", "}"]
+        got = [ln for ln in out.split("\n") if ln != ""]
+        if got != want:
+            gone = [n for n in vnames + fnames if n not in vsel | fsel and ("%s=1" % n not in got and "%s () " % n not in got)]
+            kept = [n for n in vnames + fnames if n in vsel | fsel and ("%s=1" % n in got or "%s () " % n in got)]
+            ctx.violation(case, f"variable tokens {vpat!r} (whitelist={vwl}), function tokens {fpat!r} (whitelist={fwl}): wrongly removed {gone}, "
+                                f"wrongly kept {kept}")
 
 
 def _run_raw(ctx, rng):
@@ -566,10 +866,8 @@ def _run_raw(ctx, rng):
     for text, vnames, fnames in items:
         text = text.replace("\0", "")
         status, out, vseen, fseen = real_filter(text, vnames, fnames, False, False)
-        vsel = selected(vseen, vnames, False)
-        fsel = selected([n for _, n in fseen], fnames, False)
         reals.append((text, vnames, fnames, status, out, vseen, fseen))
-        reqs.append({"cmd": "c34.run", "data": text, "vars": vsel, "funcs": fsel})
+        reqs.append(run_req(text, vnames, fnames, False, False))
     for (text, vnames, fnames, status, out, vseen, fseen), m in zip(reals, ctx.model(reqs)):
         case = {"raw": text, "vars": vnames, "funcs": fnames}
         ctx.case(case, len(vseen) + len(fseen) >= 1 and out != text, key="raw|" + text + json.dumps([vnames, fnames]))
